@@ -190,6 +190,7 @@ def run(sim: Sim) -> None:
     from incomplete_cooperative.generators import GENERATORS
     thorough = sim.tier == "thorough"
     keys = [k for k in GENERATORS if k != "convex"]
+    seeded_keys = [k for k in keys if not is_exception(k)]
     max_n = 8 if thorough else 6
     image_model = sim.pick(["fork", "fresh"], "image-model")
     use_pool = bool(sim.choose(2, "use-pool"))
@@ -267,10 +268,14 @@ def run(sim: Sim) -> None:
             t = second_pending.pop(sim.choose(len(second_pending), "which-second"))
             key, n, seed, sticky = twins[t]
             in_worker = use_pool and sim.flip(1, 2, "in-worker")
-            if not in_worker and n <= 5 and sim.flip(1, 4, "threads"):
+            if not in_worker and n <= 5 and not is_exception(key) and sim.flip(1, 4, "threads"):
                 # the second twin is drawn while another caller thread is inside a generator too (the same key half
-                # of the time), pre-empted between package lines as the tape says
-                key2 = key if sim.flip(1, 2, "same-key") else sim.pick(keys, "thread-key")
+                # of the time), pre-empted between package lines as the tape says.  Only generators that are functions
+                # of (n, supplied generator) take part: the documented exceptions work on process-global state by
+                # design (round-robin owner, module-level streams), and what two overlapping callers of those see is
+                # outside what the property promises (soak 3: two overlapping round-robin calls with n = 3 and n = 4
+                # raise IndexError - an artefact of this schedule dimension, see DESIGN 10.3)
+                key2 = key if sim.flip(1, 2, "same-key") else sim.pick(seeded_keys, "thread-key")
                 n2 = n if sim.flip(1, 2, "same-n") else 3 + sim.choose(3, "thread-n")
                 seed2 = sim.choose(2 ** 32, "thread-seed")
                 sim.op("generate-in-two-threads", key, n, key2, n2)
